@@ -1368,9 +1368,10 @@ impl<T: PackedInt> IntVec<T> {
         let mut index_data = vec![0u8; index_aligned];
         let mut bit_offset = 0;
         
+        // absolute samples: get_block_based adds sample + offset, nothing else
+        let _ = sample_min;
         for &sample in &samples {
-            let offset_sample = sample - sample_min;
-            self.write_bits_bulk(&mut index_data, offset_sample, bit_offset, sample_width)?;
+            self.write_bits_bulk(&mut index_data, sample, bit_offset, sample_width)?;
             bit_offset += sample_width as usize;
         }
 
@@ -1669,7 +1670,10 @@ impl<T: PackedInt> IntVec<T> {
         // SAFETY: samples has num_blocks elements (len >= 64, so num_blocks >= 1)
         let sample_min = *samples.iter().min().unwrap();
         let sample_max = *samples.iter().max().unwrap();
-        let sample_width = BitOps::compute_bit_width(sample_max - sample_min);
+        // Samples are stored as absolute values: the decoder has no place to find a sample base
+        // (CompressionStrategy::BlockBased carries none), so the width must hold the largest sample
+        let _ = sample_min;
+        let sample_width = BitOps::compute_bit_width(sample_max);
 
         // Analyze offset values within blocks
         let mut max_offset = 0u64;
@@ -1839,9 +1843,10 @@ impl<T: PackedInt> IntVec<T> {
         let mut index_data = vec![0u8; index_aligned];
         let mut bit_offset = 0;
         
+        // absolute samples: get_block_based adds sample + offset, nothing else
+        let _ = sample_min;
         for &sample in &samples {
-            let offset_sample = sample - sample_min;
-            self.write_bits(&mut index_data, offset_sample, bit_offset, sample_width)?;
+            self.write_bits(&mut index_data, sample, bit_offset, sample_width)?;
             bit_offset += sample_width as usize;
         }
 
